@@ -27,7 +27,7 @@ TIERS = {
     "quick": {"worlds": 160, "wall": 150, "cap": 20, "limit": 90.0, "max_points": 40},
     "thorough": {"worlds": 2400, "wall": 1500, "cap": 80, "limit": 240.0, "max_points": 64},
 }
-GATES = ("stops.iter", "stops.deadline", "stops.deadline.inner", "stops.iter.reused_solver", "nontrivial")
+GATES = ("stops.deadline.with_display_rows", "stops.iter", "stops.deadline", "stops.deadline.inner", "stops.iter.reused_solver", "nontrivial")
 
 
 def generate(rng, seed, index, tier):
@@ -41,8 +41,13 @@ def generate(rng, seed, index, tier):
     cap = TIERS[tier]["cap"]
     kw["iteration_limit"] = int(rng.integers(5, cap + 1))
     kw = gen.quiet_params(kw)
+    if rng.random() < 0.3:
+        # displayed rows share the clock with the deadline (they read and reset their own timer);
+        # the stop moment is still the solver's next own deadline check
+        kw["display_interval"] = float(rng.choice([0.0, 0.1]))
     pts_seed = int(rng.integers(0, 2**31))
-    return gen.base_world(seed, ID, index, spec, x0, y0, kw, case={"max_points": TIERS[tier]["max_points"], "pts_seed": pts_seed})
+    clock = {"steps": [], "tail": float(rng.choice([0.0, 0.03]))} if kw["display_interval"] < 1e17 else None
+    return gen.base_world(seed, ID, index, spec, x0, y0, kw, clock=clock, case={"max_points": TIERS[tier]["max_points"], "pts_seed": pts_seed})
 
 
 def _points(all_pts, maxn, seed, must=()):
@@ -177,8 +182,8 @@ def case(world):
             continue
         sub = {"j": j}
         w2 = copy.deepcopy(world)
-        w2["params"]["time_limit"] = 1.0
-        w2["clock"] = {"expire_at_read": j}
+        w2["params"]["time_limit"] = 1e6  # far above anything the plan accumulates, far below the expiry jump
+        w2["clock"] = dict(world.get("clock") or {}, expire_at_read=j)
         S = execute(w2)
         execs += 1
         vsec += 1e9 if S.clock.n > j else 0.0
@@ -198,6 +203,8 @@ def case(world):
         if TR >= 2:
             bump("nontrivial")
             keys.append("%s:j%d" % (rdig[:12], j))
+        if world["params"].get("display_interval", 0.1) < 1e17:
+            bump("stops.deadline.with_display_rows")
         ctx["t"] = p
         if is_inner:
             exp = {"TimeLimit"} if p + 1 < cap else {"IterationLimit"}
